@@ -70,6 +70,7 @@ fn run_case(kind: &str, args: &[&str]) -> String {
     match kind {
         "enc" => codec_cases::enc(args),
         "enchdr" => codec_cases::enchdr(args),
+        "encdec" => codec_cases::encdec(args),
         "dec" => codec_cases::dec(args),
         "greet" => codec_cases::greet(args),
         "ready" => codec_cases::ready(args),
